@@ -401,12 +401,16 @@ type precResult struct {
 	fails  []fail
 }
 
-func (s *space) build(n int, idx int64) *node {
+// build unranks tree idx and labels its leaves starting at position rot of
+// the leaf cycle (rot 0: a b c d 1 2 ..., rot 4: 1 2 a b c d ...).
+func (s *space) build(n int, idx int64, rot int) *node {
 	t := s.unrank(n, idx)
-	next := 0
+	next := rot
 	label(t, &next)
 	return t
 }
+
+var leafRotations = []int{0, 4}
 
 func spaceByName(name string) *space {
 	if name == "reduced" {
@@ -417,8 +421,8 @@ func spaceByName(name string) *space {
 
 // runPrec checks one tree: parse of the minimally parenthesised text equals
 // the tree; the parser's own printed form parses back to the same tree.
-func runPrec(s *space, n int, idx int64) precResult {
-	t := s.build(n, idx)
+func runPrec(s *space, n int, idx int64, rot int) precResult {
+	t := s.build(n, idx, rot)
 	res := precResult{text: "out := " + pr(t), expect: sexp(t)}
 	f, _, err := parseSrc(res.text)
 	if err != nil {
